@@ -43,3 +43,29 @@ Qed.
 Example ub_firing_check_changes_result :
   run_k ub_ex (st_of 2 3) = Some 100%Z /\ run_k (ub_fix ub_ex) (st_of 2 3) = Some 2%Z.
 Proof. vm_compute. split; reflexivity. Qed.
+
+(** * The selected extent belongs to a comparison of THIS array and THIS dimension *)
+Lemma last_opt_In {A} (l : list A) x : last_opt l = Some x -> In x l.
+Proof.
+  induction l as [|y l IH]; cbn; [discriminate|]. destruct l as [|z l]; [intros H; inversion H; auto|].
+  intros H. right. apply IH. exact H.
+Qed.
+
+Lemma ub_pick_sound conds a d b :
+  ub_pick conds a d = Some b ->
+  exists cs c, In cs conds /\ In c cs /\ lower (uc_arr c) = lower a /\ uc_dim c = d /\ uc_bound c = b.
+Proof.
+  unfold ub_pick, ub_cond. destruct (last_opt _) as [cs|] eqn:E; [|discriminate].
+  apply last_opt_In in E. apply filter_In in E as [Hin _].
+  destruct (find (ub_match a d) cs) as [c|] eqn:F; [|discriminate]. intros H. inversion H; subst.
+  apply find_some in F as [Hc Hm]. unfold ub_match in Hm. apply andb_true_iff in Hm as [H1 H2].
+  apply String.eqb_eq in H1. apply Nat.eqb_eq in H2. exists cs, c. auto.
+Qed.
+
+(** the order of the comparisons inside one conditional is irrelevant when every (array, dimension) is checked once *)
+Example ub_pick_order :
+  let c1 := [ {| uc_arr := "a"; uc_dim := 1; uc_bound := "n" |}; {| uc_arr := "B"; uc_dim := 1; uc_bound := "m" |} ] in
+  let c2 := [ {| uc_arr := "B"; uc_dim := 1; uc_bound := "m" |}; {| uc_arr := "a"; uc_dim := 1; uc_bound := "n" |} ] in
+  ub_pick [c1] "b" 1 = Some "m" /\ ub_pick [c2] "b" 1 = Some "m" /\ ub_pick [c1] "A" 1 = Some "n" /\ ub_pick [c2] "a" 1 = Some "n"
+  /\ ub_pick [c1] "a" 2 = None.
+Proof. vm_compute. repeat split; reflexivity. Qed.
